@@ -46,6 +46,87 @@ pub fn generic_table(ranks: &[usize], mag: usize, flags: u8, alpha: bool) -> Tab
     }
 }
 
+pub const W: u16 = 6;
+
+/// Four binary-capable operators (X, Y, Z = sign, W), needed for constellations such as
+/// `a - b*c^2 + 1` (two equal priorities separated by two distinct higher ones).
+pub fn generic_table4(ranks: &[usize], mag: usize, flags: u8, alpha: bool) -> Table {
+    let mut t = generic_table(&ranks[..3], mag, flags & 7, alpha);
+    // magnitudes for 4 ranks
+    let p = |i: usize| MAGS[mag][ranks[i]];
+    t.ops[0].bin = Some((p(0), flags & 1 != 0));
+    t.ops[1].bin = Some((p(1), flags & 2 != 0));
+    t.ops[2].bin = Some((p(2), flags & 4 != 0));
+    t.ops.push(OpSpec::bin("|", p(3), flags & 8 != 0));
+    t
+}
+
+pub fn generic_tables4(stride: usize, offset: usize, alpha: bool) -> Vec<Table> {
+    let mut out = vec![];
+    let mut i = 0;
+    for ranks in weak_orders(4) {
+        for flags in 0..16u8 {
+            i += 1;
+            if (i + offset) % stride == 0 {
+                out.push(generic_table4(&ranks, (i / 7) % 3, flags, alpha));
+            }
+        }
+    }
+    out
+}
+
+/// All unparenthesised chains with `n` operands over `bins`; leaf kinds {variable, literal}.
+pub fn chains(n: usize, bins: &[u16]) -> Vec<(Vec<Tree>, Vec<u16>)> {
+    let mut out = vec![];
+    for ops in tuples(bins.len(), n - 1) {
+        let ops: Vec<u16> = ops.iter().map(|&i| bins[i]).collect();
+        for kinds in tuples(2, n) {
+            let leaves: Vec<Tree> = kinds
+                .iter()
+                .enumerate()
+                .map(|(p, &k)| if k == 0 { Tree::var(["x", "y", "z"][p % 3]) } else { Tree::lit(LITS[p % LITS.len()]) })
+                .collect();
+            out.push((leaves, ops.clone()));
+        }
+    }
+    out
+}
+
+/// Chain programs for the table currently set: plain, with one unary-decorated leaf, and wrapped in a unary group.
+pub fn chain_programs(max_leaves: usize, bins: &[u16], stride_last: usize, salt: u64) -> Vec<Program> {
+    let mut out = vec![];
+    let mut ctr = salt;
+    for n in 2..=max_leaves {
+        for (leaves, ops) in chains(n, bins) {
+            ctr = ctr.wrapping_add(1);
+            if n == max_leaves && stride_last > 1 && ctr % stride_last as u64 != 0 {
+                continue;
+            }
+            let tree = chain_to_tree(&leaves, &ops);
+            let text = render_chain(&leaves, &ops);
+            out.push(Program { tree: Some(tree.clone()), text: text.clone(), class: "chain" });
+            if ctr % 5 == 0 {
+                // the whole chain as a parenthesised group under a unary function, followed by another operand
+                let k = bins[(ctr as usize / 5) % bins.len()];
+                let grouped = Tree::bin(k, Tree::un(U1, tree.clone()), Tree::var("w"));
+                let r = crate::table::repr_of(k);
+                out.push(Program { tree: Some(grouped), text: format!("sin({text}) {r} w"), class: "chain-in-unary-group" });
+                let grouped2 = Tree::bin(k, Tree::var("w"), Tree::un(Z, Tree::paren(tree.clone())));
+                out.push(Program { tree: Some(grouped2), text: format!("w {r} -({text})"), class: "chain-in-unary-group" });
+            }
+            if ctr % 7 == 0 {
+                // one leaf carries a unary chain
+                let pos = (ctr as usize / 7) % n;
+                let mut l2 = leaves.clone();
+                l2[pos] = if ctr % 2 == 0 { Tree::un(Z, l2[pos].clone()) } else { Tree::un(U1, Tree::un(Z, l2[pos].clone())) };
+                let t2 = chain_to_tree(&l2, &ops);
+                out.push(Program { tree: Some(t2), text: render_chain(&l2, &ops), class: "chain-unary-leaf" });
+            }
+        }
+    }
+    out
+}
+
 pub fn table_label(t: &Table) -> String {
     t.ops
         .iter()
